@@ -9,6 +9,7 @@ clusters are encoded.  The rune-level statement is tied by the relational run of
 import RosedVerif.Spec.Naturality
 import RosedVerif.Model.BridgeWrap
 import RosedVerif.Model.BridgeAlign
+import RosedVerif.Model.BridgeNatural
 namespace RosedVerif.Props
 open RosedVerif.Spec
 variable {α β : Type} {tk : Toks α} {tk' : Toks β} {g : α → β}
@@ -98,5 +99,125 @@ theorem C03_align_code_points {V V' : List (List Int)}
   · rw [alignLeft_bridge_spec hV' (toks.map g) ht' w, alignLeft_map hmap]
   · rw [alignRight_bridge_spec hV' (toks.map g) ht' w, alignRight_map hmap]
   · rw [alignCenter_bridge_spec hV' (toks.map g) ht' w, alignCenter_map hmap]
+
+open RosedVerif RosedVerif.BridgeOps RosedVerif.BridgeNatural
+
+/-- **the PUBLIC operation on code points**: Editor.WrapOpts (non-paragraph mode, any options whose line separator is fixed by `g` and not produced by `g` from another cluster — necessary, `BridgeNatural.hinv_needed`) on a text and on its cluster-for-cluster substitution `g` (any whitespace-preserving map between two stable vocabularies, not necessarily injective) returns texts whose REAL grapheme clusters are `r` and `r.map g` -/
+theorem C03_wrapOpts_code_points {V V' : List (List Int)} (hV : VocabStable V = true)
+    (hsp : [0x20] ∈ V)
+    (hhy : [0x2D] ∈ V)
+    (hspTail : ∀ t ∈ V, (0x20 : Int) ∉ t.tail)
+    (hV' : VocabStable V' = true)
+    (hsp' : [0x20] ∈ V')
+    (hspTail' : ∀ t ∈ V', (0x20 : Int) ∉ t.tail)
+    (g : List Int → List Int)
+    (hg : ∀ t ∈ V, g t ∈ V')
+    (hws : ∀ t, cxB.isSpace (g t) = cxB.isSpace t)
+    (hgsp : g [0x20] = [0x20])
+    (hghy : g [0x2D] = [0x2D])
+    (toks : List (List Int))
+    (ht : ∀ t ∈ toks, t ∈ V)
+    (w : Int)
+    (o0 o : Options (List Int))
+    (hpp : o.preservePara = false)
+    (hS : GoodSep V (o.withDefaults cxB).lineSep)
+    (hS' : GoodSep V' (o.withDefaults cxB).lineSep)
+    (hSV : ∀ s ∈ (o.withDefaults cxB).lineSep, s ∈ V)
+    (hfix : ∀ s ∈ (o.withDefaults cxB).lineSep, g s = s)
+    (hinv : ∀ t ∈ V, g t ∈ (o.withDefaults cxB).lineSep → t ∈ (o.withDefaults cxB).lineSep) :
+    ∃ r : List (List Int),
+      Editor.wrapOpts cxA (.root toks.flatten o0.flat) w o.flat = .ok (.root r.flatten o0.flat) ∧
+      Editor.wrapOpts cxA (.root (toks.map g).flatten o0.flat) w o.flat =
+        .ok (.root (r.map g).flatten o0.flat) ∧
+      clusters cxA r.flatten = r ∧ clusters cxA (r.map g).flatten = r.map g ∧
+      r = wrapText (o.withDefaults cxB).lineSep toks w :=
+  wrapOpts_natural_clusters hV hsp hhy hspTail hV' hsp' hspTail' g hg hws hgsp hghy toks ht w o0 o hpp hS hS' hSV hfix hinv
+
+/-- the same for Editor.AlignOpts, every alignment value -/
+theorem C03_alignOpts_code_points {V V' : List (List Int)} (hV : VocabStable V = true)
+    (hsp : [0x20] ∈ V)
+    (hV' : VocabStable V' = true)
+    (g : List Int → List Int)
+    (hg : ∀ t ∈ V, g t ∈ V')
+    (hws : ∀ t, cxB.isSpace (g t) = cxB.isSpace t)
+    (hgsp : g [0x20] = [0x20])
+    (hghy : g [0x2D] = [0x2D])
+    (toks : List (List Int))
+    (ht : ∀ t ∈ toks, t ∈ V)
+    (align width : Int)
+    (o0 o : Options (List Int))
+    (hal : align = Gen.alignLeft ∨ align = Gen.alignRight ∨ align = Gen.alignCenter)
+    (hpp : o.preservePara = false)
+    (hS : GoodSep V (o.withDefaults cxB).lineSep)
+    (hS' : GoodSep V' (o.withDefaults cxB).lineSep)
+    (hSV : ∀ s ∈ (o.withDefaults cxB).lineSep, s ∈ V)
+    (hfix : ∀ s ∈ (o.withDefaults cxB).lineSep, g s = s)
+    (hinv : ∀ t ∈ V, g t ∈ (o.withDefaults cxB).lineSep → t ∈ (o.withDefaults cxB).lineSep) :
+    ∃ r : List (List Int),
+      Editor.alignOpts cxA (.root toks.flatten o0.flat) align width o.flat =
+        .ok (.root r.flatten o0.flat) ∧
+      Editor.alignOpts cxA (.root (toks.map g).flatten o0.flat) align width o.flat =
+        .ok (.root (r.map g).flatten o0.flat) ∧
+      clusters cxA r.flatten = r ∧ clusters cxA (r.map g).flatten = r.map g ∧
+      r = alignText (.root toks o0) align width o :=
+  alignOpts_natural_clusters hV hsp hV' g hg hws hgsp hghy toks ht align width o0 o hal hpp hS hS' hSV hfix hinv
+
+/-- the same for Editor.CollapseSpaceOpts -/
+theorem C03_collapseSpaceOpts_code_points {V V' : List (List Int)} (hV : VocabStable V = true)
+    (hsp : [0x20] ∈ V)
+    (hspTail : ∀ t ∈ V, (0x20 : Int) ∉ t.tail)
+    (hV' : VocabStable V' = true)
+    (hsp' : [0x20] ∈ V')
+    (hspTail' : ∀ t ∈ V', (0x20 : Int) ∉ t.tail)
+    (g : List Int → List Int)
+    (hg : ∀ t ∈ V, g t ∈ V')
+    (hws : ∀ t, cxB.isSpace (g t) = cxB.isSpace t)
+    (hgsp : g [0x20] = [0x20])
+    (hghy : g [0x2D] = [0x2D])
+    (toks : List (List Int))
+    (ht : ∀ t ∈ toks, t ∈ V)
+    (o0 o : Options (List Int))
+    (hS : GoodSep V (o.withDefaults cxB).lineSep)
+    (hS' : GoodSep V' (o.withDefaults cxB).lineSep)
+    (hfix : ∀ s ∈ (o.withDefaults cxB).lineSep, g s = s)
+    (hinv : ∀ t ∈ V, g t ∈ (o.withDefaults cxB).lineSep → t ∈ (o.withDefaults cxB).lineSep) :
+    ∃ r : List (List Int),
+      Editor.collapseSpaceOpts cxA (.root toks.flatten o0.flat) o.flat =
+        .ok (.root r.flatten o0.flat) ∧
+      Editor.collapseSpaceOpts cxA (.root (toks.map g).flatten o0.flat) o.flat =
+        .ok (.root (r.map g).flatten o0.flat) ∧
+      clusters cxA r.flatten = r ∧ clusters cxA (r.map g).flatten = r.map g ∧
+      r = collapseText (o.withDefaults cxB).lineSep toks :=
+  collapseSpaceOpts_natural_clusters hV hsp hspTail hV' hsp' hspTail' g hg hws hgsp hghy toks ht o0 o hS hS' hfix hinv
+
+/-- counting: CharCount of a text and of its substitution are both the number of clusters -/
+theorem C03_charCount_code_points {V V' : List (List Int)} (hV : VocabStable V = true)
+    (hV' : VocabStable V' = true)
+    (g : List Int → List Int)
+    (hg : ∀ t ∈ V, g t ∈ V')
+    (toks : List (List Int))
+    (ht : ∀ t ∈ toks, t ∈ V)
+    (o0 o0' : Options Int) :
+    Editor.charCount cxA (.root (toks.map g).flatten o0') = toks.length ∧
+      Editor.charCount cxA (.root toks.flatten o0) = toks.length :=
+  charCount_natural hV hV' g hg toks ht o0 o0'
+
+/-- counting: LineCount is unchanged by the substitution -/
+theorem C03_lineCount_code_points {V V' : List (List Int)} (hV : VocabStable V = true)
+    (hV' : VocabStable V' = true)
+    (g : List Int → List Int)
+    (hg : ∀ t ∈ V, g t ∈ V')
+    (toks : List (List Int))
+    (ht : ∀ t ∈ toks, t ∈ V)
+    (o0 : Options (List Int))
+    (hS : GoodSep V (o0.withDefaults cxB).lineSep)
+    (hS' : GoodSep V' (o0.withDefaults cxB).lineSep)
+    (hfix : ∀ s ∈ (o0.withDefaults cxB).lineSep, g s = s)
+    (hinv : ∀ t ∈ V, g t ∈ (o0.withDefaults cxB).lineSep → t ∈ (o0.withDefaults cxB).lineSep) :
+    Editor.lineCount cxA (.root (toks.map g).flatten o0.flat) =
+        Editor.lineCount cxA (.root toks.flatten o0.flat) ∧
+      Editor.lineCount cxA (.root toks.flatten o0.flat) =
+        (Spec.bareLines toks (o0.withDefaults cxB).lineSep o0.noTrailing).length :=
+  lineCount_natural hV hV' g hg toks ht o0 hS hS' hfix hinv
 
 end RosedVerif.Props
